@@ -3,13 +3,66 @@
 #include "base.h"
 #include "cJSON.h"
 #define PAGE 4096
-static unsigned char *region, *data_lo, *data_hi;
+static unsigned char *region, *data_lo, *data_hi; static int full_table;
+
+/* ["N", line, block, str]: bytes that are transparent in a line comment / block comment, copied in a string (from the Minify machine).
+ * Every triple of such bytes is put into [1,//xyzt\n2], [1,<block comment>2] and ["axyzb" ]; the first two are JSON with comments whatever the bytes are (C13:
+ * must become [1,2]); the third is one when the bytes form an RFC 8259 string body (otherwise a different result is drift). */
+static long table_texts;
+static int u8ok3(const unsigned char *s, int n)
+{
+    int i = 0;
+    while (i < n) {
+        unsigned c = s[i];
+        if (c < 0x20) return 0;
+        if (c < 0x80) { i++; continue; }
+        if (c >= 0xC2 && c <= 0xDF) { if (i + 1 >= n || (s[i + 1] & 0xC0) != 0x80) return 0; i += 2; continue; }
+        if (c >= 0xE0 && c <= 0xEF) { if (i + 2 >= n || (s[i + 1] & 0xC0) != 0x80 || (s[i + 2] & 0xC0) != 0x80) return 0;
+            if (c == 0xE0 && s[i + 1] < 0xA0) return 0; if (c == 0xED && s[i + 1] >= 0xA0) return 0; i += 3; continue; }
+        return 0;
+    }
+    return 1;
+}
+static int do_table(const jv *v, int full)
+{
+    unsigned char T[3][256]; int ctx; unsigned b1, b2, b3; char buf[32], exp[32];
+    for (ctx = 0; ctx < 3; ctx++) { const jv *t = jv_at(v, 1 + (size_t)ctx); if (!t || t->n != 255) return -1; for (b1 = 1; b1 <= 255; b1++) T[ctx][b1] = (unsigned char)jv_int(t->e[b1 - 1]); }
+    if (!VD_TRY()) { vd_violation("cJSON_Minify: memory fault or hang on a short comment / string body"); return 1; }
+    for (ctx = 0; ctx < 3; ctx++)
+        for (b1 = 1; b1 <= 255; b1++) {
+            vd_tick();
+            if (!T[ctx][b1]) continue;
+            for (b2 = 1; b2 <= 255; b2++) {
+                unsigned step3 = 1, start3 = 1;
+                if (!T[ctx][b2]) continue;
+                if (!full && !(b1 >= 0xC0 || b1 < 0x30 || b1 == 0x5C || b1 == 0x7F)) { step3 = 5; start3 = 1 + (b1 + b2) % 5; }
+                for (b3 = start3; b3 <= 255; b3 += step3) {
+                    size_t n; int must = 1;
+                    if (!T[ctx][b3]) continue;
+                    if (ctx == 1 && ((b1 == '*' && b2 == '/') || (b2 == '*' && b3 == '/'))) continue;      /* that would close the comment */
+                    if (ctx == 0) { n = (size_t)sprintf(buf, "[1,//%c%c%ct\n2]", b1, b2, b3); strcpy(exp, "[1,2]"); }
+                    else if (ctx == 1) { n = (size_t)sprintf(buf, "[1,/*%c%c%ct*/2]", b1, b2, b3); strcpy(exp, "[1,2]"); }
+                    else { unsigned char body[3]; body[0] = (unsigned char)b1; body[1] = (unsigned char)b2; body[2] = (unsigned char)b3; must = u8ok3(body, 3);
+                           n = (size_t)sprintf(buf, "[\"a%c%c%cb\" ]", b1, b2, b3); sprintf(exp, "[\"a%c%c%cb\"]", b1, b2, b3); }
+                    buf[n + 1] = 0x55;
+                    cJSON_Minify(buf); table_texts++;
+                    if (strcmp(buf, exp) != 0 || buf[n + 1] != 0x55) {
+                        if (must) { vd_violation("cJSON_Minify: a %s with the bytes %02x %02x %02x gives \"%.30s\" instead of \"%.30s\"", ctx == 0 ? "line comment" : ctx == 1 ? "block comment" : "string", b1, b2, b3, buf, exp); if (VD.violations > 20) goto done; }
+                        else VD.drift++;
+                    }
+                }
+            }
+        }
+done:
+    VD_END();
+    return 1;
+}
 
 int vd_minify_main(int argc, char **argv);
 int vd_minify_main(int argc, char **argv)
 {
     char *line = NULL; size_t cap = 0; ssize_t len; const char *stats = NULL; int k; long valid_n = 0; char extra[128];
-    for (k = 0; k < argc; k++) if (!strcmp(argv[k], "--stats") && k + 1 < argc) stats = argv[k + 1];
+    for (k = 0; k < argc; k++) { if (!strcmp(argv[k], "--stats") && k + 1 < argc) stats = argv[k + 1]; if (!strcmp(argv[k], "--fulltable")) full_table = 1; }
     region = (unsigned char*)mmap(NULL, 4 * PAGE, PROT_READ | PROT_WRITE, MAP_PRIVATE | MAP_ANONYMOUS, -1, 0);
     data_lo = region + PAGE; data_hi = data_lo + 2 * PAGE;
     mprotect(region, PAGE, PROT_NONE); mprotect(data_hi, PAGE, PROT_NONE);
@@ -20,6 +73,7 @@ int vd_minify_main(int argc, char **argv)
         if (len <= 0) continue;
         if (line[0] != '"') { if (VD.passthrough) fputs(line, VD.passthrough); continue; }
         copy = strdup(line); jv_reset(); v = jv_parse_line(line);
+        if (v && v->t == JV_ARR && v->n == 4 && jv_is_str(jv_at(v, 0), "N")) { VD.curline = copy; VD.cases++; if (do_table(v, full_table) < 0) { fprintf(stderr, "vdrv: cannot interpret minify table\n"); return 2; } VD.nontrivial++; VD.curline = NULL; free(copy); continue; }
         if (!v || v->t != JV_ARR || v->n < 4 || !jv_is_str(jv_at(v, 0), "M")) { if (VD.passthrough) fputs(copy, VD.passthrough); free(copy); continue; }
         VD.curline = copy; VD.cases++;
         tb = jv_at(v, 1); ob = jv_at(v, 2); valid = (int)jv_int(jv_at(v, 3)); n = tb->n; if (valid) valid_n++;
@@ -50,7 +104,7 @@ int vd_minify_main(int argc, char **argv)
         if (VD.samplef && VD.samples < 6 && (VD.cases % 9973 == 11)) { fputs(copy, VD.samplef); VD.samples++; }
         vd_tick(); VD.curline = NULL; free(copy);
     }
-    snprintf(extra, sizeof(extra), "\"json_with_comments_inputs\": %ld", valid_n);
+    snprintf(extra, sizeof(extra), "\"json_with_comments_inputs\": %ld, \"comment_and_string_bodies_against_table\": %ld", valid_n, table_texts);
     if (stats) vd_write_stats(stats, extra);
     return VD.violations ? 1 : 0;
 }
